@@ -1,25 +1,41 @@
-"""C18 part C — CRDTStore gossip in a real Simulation: convergence to the specified value at quiescence.
+"""C18 part C — CRDTStore gossip in a real Simulation: every store holds the value specified for the updates
+it has received, stores that received the same updates are equal.
 
-Closed system: n CRDTStore entities on a real Network (full mesh, constant 0.1 s links, no loss, no
-partition), gossip_interval 1 s started through the public ``get_gossip_event()``.  A *program* is a
-small set of Write events (time in {0.5, 1.5} s, store, operation, value) on one key.  The only
+Closed system: n CRDTStore entities on a real Network (every pair linked, constant 0.1 s links, no loss, no
+partition), gossip_interval 1 s started through the public ``get_gossip_event()``.  The PEER LISTS form a
+topology that is part of the enumerated input:
+
+    mesh          every store lists every other store
+    ring          store i lists only store i+1 (one-directional: a store is pushed to by a node it does not list)
+    star          store 0 lists all others, the others list only store 0
+    newcomer-out  the last store lists all others; the others list each other but not the newcomer
+    newcomer-in   the others list everybody including the last store; the last store lists nobody
+    oneway        (2 stores) store 0 lists store 1, store 1 lists nobody          oneway-rev: the mirror image
+
+A *program* is a small set of Write events (time in {0.5, 1.5} s, store, operation, value) on one key.  The only
 nondeterminism - ``random.choice(peers)`` in every gossip tick - is owned by the chooser
-(mc.harness.owned_random) and explored by mc.choice.explore (all sequences for 2 stores where there
-is a single peer; deviation-bounded for 3 stores).  The run ends at 4.9 s: after the last write every
-store executes 3 complete push/pull rounds (2.0, 3.0, 4.0 s; every message is delivered 0.1 s after
-it is sent), which is enough for every update to reach every store whatever peers are chosen (n <= 3:
-round 1 gives the update to a second store, in round 2 the third store necessarily exchanges with a
-store that has it).
+(mc.harness.owned_random) and explored by mc.choice.explore (every sequence, or deviation-bounded).  The run ends
+at 4.9 s (ticks at 1, 2, 3, 4 s; every message is delivered 0.1 s after it is sent).
 
-Oracle at quiescence (statement: "replicas that have received the same updates are equal ... and their
+Which updates a store "has received" is computed by the harness from the messages the engine actually delivers
+(public ``sim.control.on_event`` hook, event type / target / metadata["source"] only):
+    Write delivered to S                  know[S] += that write
+    GossipTick delivered to X             sent[X] = know[X]            (the push carries X's state of that instant)
+    GossipPush from X delivered to P      know[P] |= sent[X];  answered[(P, X)] = know[P]
+    GossipResponse from P delivered to X  know[X] |= answered[(P, X)]
+No assumption is made about WHO answers or which peer is picked: only delivered messages count.
+
+Oracle at the end of the run (statement: "replicas that have received the same updates are equal ... and their
 value is the specified one"):
-  converged        every store has the key, all values are equal and the replicas compare equal (==)
-  quiescent-value  counters: value == sum(increments) - sum(decrements) of ALL writes of the program;
-                   OR-set programs without remove: value == set of added elements.  (OR-set programs with
-                   removes are only checked for convergence here; their specified value depends on which
-                   adds each remove observed and is decided by the replica-level driver.)
+  quiescent-value  counters: value(S) == sum(increments) - sum(decrements) over know[S];  OR-set programs
+                   without remove: value(S) == elements added in know[S]   (a store that received nothing and
+                   has no replica counts as 0 / empty).  OR-set programs with removes are only checked for
+                   the clause below; their specified value is decided by the replica-level driver.
+  converged        know[S] == know[T]  =>  equal values and the replicas compare equal (==)
+  read-value       a Read event delivered to S at 4.6 s (after the last message) is answered with that value
 Shape class of a violation: 'foreign-node-id' when some store holds a replica whose public ``node_id`` is
-another store's name, 'non-str-element' when the program writes a non-string element, else 'plain'.
+another store's name, 'non-str-element' when the program writes a non-string element, else 'plain'; suffix
+'/asymmetric-peers' when the peer lists are not symmetric.
 """
 from __future__ import annotations
 
@@ -27,6 +43,8 @@ import itertools
 
 from mc.choice import Chooser, explore
 from mc.harness import Event, Instant, Simulation, owned_random, run_guarded
+
+from happysimulator.core.sim_future import SimFuture
 
 from happysimulator.components.crdt.crdt_store import CRDTStore
 from happysimulator.components.crdt.g_counter import GCounter
@@ -39,7 +57,28 @@ from happysimulator.distributions.constant import ConstantLatency
 FACT = {"GCounter": GCounter, "PNCounter": PNCounter, "ORSet": ORSet}
 KEY = "k"
 END_S = 4.9
+READ_S = 4.6
 TIMES = (0.5, 1.5)
+SYMMETRIC = ("mesh", "star")
+
+
+def peer_lists(topo, n):
+    """index lists: peers[i] = indices store i lists as peers."""
+    if topo == "mesh":
+        return [[j for j in range(n) if j != i] for i in range(n)]
+    if topo == "ring":
+        return [[(i + 1) % n] for i in range(n)]
+    if topo == "star":
+        return [[j for j in range(1, n)]] + [[0] for _ in range(1, n)]
+    if topo == "newcomer-out":
+        return [[j for j in range(n - 1) if j != i] for i in range(n - 1)] + [list(range(n - 1))]
+    if topo == "newcomer-in":
+        return [[j for j in range(n) if j != i] for i in range(n - 1)] + [[]]
+    if topo == "oneway":
+        return [[1]] + [[] for _ in range(1, n)]
+    if topo == "oneway-rev":
+        return [[]] + [[0]] + [[] for _ in range(2, n)]
+    raise AssertionError(topo)
 
 
 def _factory(typ):
@@ -57,108 +96,194 @@ def alphabet(typ, n, elements=("x", "y")):
     return [(t, s, op, v) for t in TIMES for s in range(n) for (op, v) in ops]
 
 
-def programs(typ, n, max_writes, elements=("x", "y")):
-    """All multisets of 1..max_writes writes whose first (earliest, lowest-numbered) writer is store 0
-    (stores are interchangeable up to their names)."""
+def programs(typ, n, max_writes, elements=("x", "y"), topo="mesh"):
+    """All multisets of 1..max_writes writes.  For the mesh (stores interchangeable up to their names) only
+    those whose first (earliest, lowest-numbered) writer is store 0."""
     alpha = alphabet(typ, n, elements)
     out = []
     for k in range(1, max_writes + 1):
         for prog in itertools.combinations_with_replacement(alpha, k):
-            if prog[0][1] != 0:
+            if topo == "mesh" and prog[0][1] != 0:
                 continue
             out.append(prog)
     return out
 
 
-def run_once(chooser, typ, n, prog):
+class Flow:
+    """Harness ghost state: the set of writes each store has received, from the delivered messages."""
+
+    def __init__(self, stores):
+        self.names = [s.name for s in stores]
+        self.is_store = {id(s) for s in stores}
+        self.know = {nm: frozenset() for nm in self.names}
+        self.sent = {nm: frozenset() for nm in self.names}
+        self.answered = {}
+        self.log = []
+
+    def on_event(self, ev):
+        tgt = ev.target
+        if id(tgt) not in self.is_store:
+            return
+        nm = tgt.name
+        et = ev.event_type
+        md = ev.context.get("metadata", {}) if isinstance(ev.context, dict) else {}
+        if et == "Write":
+            w = md.get("wid")
+            if w is not None:
+                self.know[nm] = self.know[nm] | {w}
+                self.log.append((ev.time.nanoseconds, "write", nm, w))
+        elif et == "GossipTick":
+            self.sent[nm] = self.know[nm]
+        elif et == "GossipPush":
+            src = md.get("source")
+            if src in self.know:
+                self.know[nm] = self.know[nm] | self.sent[src]
+                self.answered[(nm, src)] = self.know[nm]
+                self.log.append((ev.time.nanoseconds, "push", src, nm, sorted(self.know[nm])))
+        elif et == "GossipResponse":
+            src = md.get("source")
+            if (src, nm) in self.answered:
+                self.know[nm] = self.know[nm] | self.answered[(src, nm)]
+                self.log.append((ev.time.nanoseconds, "response", src, nm, sorted(self.know[nm])))
+
+
+def run_once(chooser, typ, n, prog, topo="mesh"):
     net = Network(name="net")
     stores = [CRDTStore(f"s{i}", network=net, crdt_factory=_factory(typ), gossip_interval=1.0) for i in range(n)]
-    for s in stores:
-        s.add_peers([p for p in stores if p is not s])
+    for s, idx in zip(stores, peer_lists(topo, n)):
+        s.add_peers([stores[j] for j in idx])
     for i in range(n):
         for j in range(i + 1, n):
             net.add_bidirectional_link(stores[i], stores[j],
                                        NetworkLink(name=f"l{i}{j}", latency=ConstantLatency(0.1)))
     sim = Simulation(start_time=Instant.Epoch, end_time=Instant.from_seconds(END_S), entities=stores + [net])
     evs = [Event(time=Instant.from_seconds(t), event_type="Write", target=stores[i],
-                 context={"metadata": {"key": KEY, "operation": op, "value": v}}) for (t, i, op, v) in prog]
+                 context={"metadata": {"key": KEY, "operation": op, "value": v, "wid": w}})
+           for w, (t, i, op, v) in enumerate(prog)]
     sim.schedule(evs)
     for s in stores:
         g = s.get_gossip_event()
         if g is not None:
             sim.schedule(g)
+    # a client reads the key at every store after the last message has been delivered
+    replies = []
+    for s in stores:
+        fut = SimFuture()
+        replies.append(fut)
+        sim.schedule(Event(time=Instant.from_seconds(READ_S), event_type="Read", target=s,
+                           context={"metadata": {"key": KEY, "reply_future": fut}}))
+    flow = Flow(stores)
+    flow.replies = replies
     with owned_random(chooser):
-        r = run_guarded(sim, max_events=4000, storm=300)
-    return r, stores
+        r = run_guarded(sim, max_events=4000, storm=300, on_event=flow.on_event)
+    return r, stores, flow
 
 
-def spec_value(typ, prog):
+def spec_value(typ, prog, known):
+    """Specified value for a store that has received the writes with indices ``known``."""
+    ws = [prog[w] for w in sorted(known)]
     if typ in ("GCounter", "PNCounter"):
-        return sum(v if op == "increment" else -v for (_t, _s, op, v) in prog)
+        return sum(v if op == "increment" else -v for (_t, _s, op, v) in ws)
     if any(op == "remove" for (_t, _s, op, _v) in prog):
         return None
-    return frozenset(v for (_t, _s, op, v) in prog)
+    return frozenset(v for (_t, _s, op, v) in ws)
 
 
-def judge(typ, n, prog, r, stores):
+def _empty(typ):
+    return 0 if typ in ("GCounter", "PNCounter") else frozenset()
+
+
+def judge(typ, n, prog, r, stores, flow, topo="mesh"):
     """Returns (violations [(fp, desc)], observation)."""
     out = []
     reps = [s.crdts.get(KEY) for s in stores]
-    vals = [None if x is None else x.value for x in reps]
-    obs = (r["outcome"], tuple(repr(v) for v in vals))
+    vals = [_empty(typ) if x is None else x.value for x in reps]
+    know = [flow.know[s.name] for s in stores]
+    obs = (r["outcome"], tuple(repr(v) for v in vals), tuple(tuple(sorted(k)) for k in know))
     if r["outcome"] != "done":
-        return out, obs  # no quiescence reached inside the horizon: not judged (counted by the caller)
+        return out, obs  # the horizon cut the run: not judged (counted by the caller)
     foreign = any(x is not None and getattr(x, "node_id", s.name) != s.name for x, s in zip(reps, stores))
     nonstr = any(op in ("add", "remove") and not isinstance(v, str) for (_t, _s, op, v) in prog)
     shape = "non-str-element" if nonstr else ("foreign-node-id" if foreign else "plain")
-    conv = all(x is not None for x in reps)
-    if conv:
-        for a in range(n):
-            for b in range(a + 1, n):
-                if vals[a] != vals[b] or not (reps[a] == reps[b]):
-                    conv = False
-    if not conv:
+    if topo not in SYMMETRIC:
+        shape += "/asymmetric-peers"
+    ids = [getattr(x, "node_id", None) for x in reps]
+    unequal = []
+    for a in range(n):
+        for b in range(a + 1, n):
+            if know[a] == know[b]:
+                same = vals[a] == vals[b]
+                if same and reps[a] is not None and reps[b] is not None:
+                    same = bool(reps[a] == reps[b])
+                if not same:
+                    unequal.append((stores[a].name, stores[b].name))
+    if unequal:
         out.append((f"CRDTStore/converged/{typ}/{shape}",
-                    f"after 3 full gossip rounds following the last write the stores hold {vals} for key {KEY!r} "
-                    f"(replica node_ids {[getattr(x, 'node_id', None) for x in reps]})"))
-    sv = spec_value(typ, prog)
-    if sv is not None:
-        bad = [i for i in range(n) if vals[i] != sv]
-        if bad and (conv or typ != "ORSet"):
-            out.append((f"CRDTStore/quiescent-value/{typ}/{shape}",
-                        f"stores hold {vals} for key {KEY!r} at quiescence, the writes {list(prog)} specify {sv!r} "
-                        f"(replica node_ids {[getattr(x, 'node_id', None) for x in reps]})"))
-        elif bad and not conv:
-            pass  # already reported as not converged
+                    f"stores {unequal} received the same writes but differ: values {vals}, writes received "
+                    f"{[sorted(k) for k in know]} (peer lists '{topo}', replica node_ids {ids})"))
+    bad = []
+    for i in range(n):
+        sv = spec_value(typ, prog, know[i])
+        if sv is not None and vals[i] != sv:
+            bad.append((stores[i].name, vals[i], sv, sorted(know[i])))
+    # what a client reading through a Read event is told (only for stores whose replica value conforms)
+    badr = []
+    wrong = {b[0] for b in bad}
+    for i, fut in enumerate(getattr(flow, "replies", [])):
+        sv = spec_value(typ, prog, know[i])
+        if sv is None or stores[i].name in wrong:
+            continue
+        if not fut.is_resolved:
+            badr.append((stores[i].name, "no reply", sv))
+            continue
+        got = fut.value.get("value") if isinstance(fut.value, dict) else fut.value
+        if got is None and reps[i] is None:
+            got = _empty(typ)
+        if got != sv:
+            badr.append((stores[i].name, got, sv))
+    if badr:
+        out.append((f"CRDTStore/read-value/{typ}/{shape}",
+                    f"(store, value returned to a Read at {READ_S} s, value specified for the writes it received): "
+                    f"{badr}; writes {list(prog)} (peer lists '{topo}')"))
+    if bad:
+        out.append((f"CRDTStore/quiescent-value/{typ}/{shape}",
+                    f"(store, value held, value specified for the writes it received, indices of those writes): "
+                    f"{bad}; writes {list(prog)} (peer lists '{topo}', replica node_ids {ids})"))
     return out, obs
 
 
 def work(job):
-    typ, n, progs, bound, elements = job
+    typ, n, progs, bound, elements, topo = job
     st = {"exec": 0, "trans": 0, "nontriv": set(), "outcomes": set(), "viol": {}, "samples": [],
-          "unfinished": 0, "points": 0}
+          "unfinished": 0, "points": 0, "all_full": 0, "unlisted_push": 0}
+    plists = peer_lists(topo, n)
     for prog in progs:
         def run_fn(ch, prog=prog):
-            r, stores = run_once(ch, typ, n, prog)
-            return r, stores
+            return run_once(ch, typ, n, prog, topo)
 
-        for choices, points, (r, stores) in explore(run_fn, bound=bound):
+        for choices, points, (r, stores, flow) in explore(run_fn, bound=bound):
             st["exec"] += 1
             st["trans"] += r["events"]
             st["points"] = max(st["points"], len(points))
-            v, obs = judge(typ, n, prog, r, stores)
-            st["outcomes"].add(hash((prog, obs)))
+            v, obs = judge(typ, n, prog, r, stores, flow, topo)
+            st["outcomes"].add(hash((topo, prog, obs)))
             if r["outcome"] != "done":
                 st["unfinished"] += 1
-            if len({w[1] for w in prog}) > 1 or any(s.stats.keys_merged for s in stores if s.stats.writes):
-                st["nontriv"].add(hash((prog, tuple(choices))))
+            full = frozenset(range(len(prog)))
+            if all(flow.know[s.name] == full for s in stores):
+                st["all_full"] += 1
+            if any(e[1] == "push" and int(e[2][1:]) not in plists[int(e[3][1:])] for e in flow.log):
+                st["unlisted_push"] += 1
+            # non-trivial: some store holds (by delivered gossip) a write issued at another store
+            if any(prog[w][1] != i for i, s in enumerate(stores) for w in flow.know[s.name]):
+                st["nontriv"].add(hash((topo, prog, tuple(choices))))
             for fp, desc in v:
                 if fp not in st["viol"]:
                     st["viol"][fp] = (desc, {"driver": "store", "typ": typ, "n": n, "program": prog,
-                                             "choices": list(choices)})
+                                             "choices": list(choices), "topo": topo})
             if len(st["samples"]) < 1 and st["exec"] % 53 == 7:
-                st["samples"].append({"typ": typ, "n": n, "program": prog, "choices": list(choices),
-                                      "values": obs[1]})
+                st["samples"].append({"typ": typ, "n": n, "peer_lists": topo, "program": prog,
+                                      "choices": list(choices), "values": obs[1], "writes_received": obs[2]})
     st["nontriv"] = len(st["nontriv"])
     return st
 
@@ -169,14 +294,18 @@ def replay(rep):
 
     prog = thaw(rep["program"])
     typ, n = rep["typ"], rep["n"]
+    topo = rep.get("topo", "mesh")
     ch = Chooser(prefix=rep["choices"])
-    r, stores = run_once(ch, typ, n, prog)
-    print(f"store replay: {n} x CRDTStore({typ}), writes={list(prog)}, peer choices={rep['choices']}")
+    r, stores, flow = run_once(ch, typ, n, prog, topo)
+    print(f"store replay: {n} x CRDTStore({typ}), peer lists '{topo}' = {peer_lists(topo, n)}, "
+          f"writes={list(enumerate(prog))}, peer choices={rep['choices']}")
+    for e in flow.log:
+        print(f"  t={e[0] / 1e9:.1f}s {e[1:]}")
     for s in stores:
         x = s.crdts.get(KEY)
         print(f"  {s.name}: value={None if x is None else x.value!r} replica node_id="
-              f"{getattr(x, 'node_id', None)} stats={s.stats}")
-    v, _obs = judge(typ, n, prog, r, stores)
+              f"{getattr(x, 'node_id', None)} writes received={sorted(flow.know[s.name])} stats={s.stats}")
+    v, _obs = judge(typ, n, prog, r, stores, flow, topo)
     for fp, desc in v:
         print(f"    !! {fp}: {desc}")
     return [fp for fp, _ in v]
